@@ -341,6 +341,12 @@ func (idx *RoaringMetadataIndex) queryCategorical(filter Filter) (*roaring.Bitma
 		return result, nil
 
 	default:
+		// A comparison on a field that no document of this index carries matches
+		// nothing (the field's type is simply not known here); it is only an error
+		// for a field that is known to be categorical
+		if idx.getExistenceBitmap(filter.Field).IsEmpty() {
+			return roaring.New(), nil
+		}
 		return nil, fmt.Errorf("unsupported operator for categorical field: %s", filter.Operator)
 	}
 }
